@@ -37,8 +37,8 @@ import (
 //	array dump = kvs over the whole capacity (never written cells are `x=N`); spare = number of cells in the spare
 //	capacity of the []Link / []EventOption slices handed to the SDK that are no longer zero after the script.
 //
-// AddLink keeps the caller's Link.Attributes slice (span.go: `Attributes: link.Attributes`): the generators never write
-// to array 2 after the leading block and only array 2 feeds lnb/LNB, so that documented-by-code sharing is not exercised.
+// AddLink copies the attributes it keeps (span.go `slices.Clone`, the F44 repair in /repo 48fa451; before it the link kept
+// the caller's slice): the generators write to every array — also the ones that fed lnb/LNB — between the calls and after End.
 
 type vC04Seg struct{ b, off, n int }
 
@@ -84,8 +84,8 @@ func (bs vC04Bufs) concat(segs []vC04Seg) []attribute.KeyValue {
 }
 
 func (bs vC04Bufs) attrOpts(segs []vC04Seg) []trace.EventOption {
-	// the option slice itself has no spare capacity (RecordError appends to it: span.go)
-	opts := make([]trace.EventOption, 0, len(segs))
+	// the option slice has spare capacity: RecordError must not append its own option into it (F45, /repo 30d2a20)
+	opts := make([]trace.EventOption, 0, len(segs)+2)
 	for _, s := range segs {
 		opts = append(opts, trace.WithAttributes(bs.seg(s)...))
 	}
@@ -120,6 +120,9 @@ loop:
 	for ; i < len(ops); i++ {
 		switch ops[i][0] {
 		case "wr":
+			if len(links) > 0 {
+				break loop // a write after the first link belongs to the body: the links are read by Start
+			}
 			write(ops[i])
 		case "LN":
 			links = append(links, trace.Link{SpanContext: vC04ParseSC(ops[i][1]), Attributes: vC04ParseKVs(ops[i][2])})
@@ -153,6 +156,7 @@ loop:
 		i++
 	}
 	_, span := tp.Tracer("verif").Start(context.Background(), name, so...)
+	spareOpts := 0
 	for ; i < len(ops); i++ {
 		op := ops[i]
 		switch op[0] {
@@ -181,7 +185,13 @@ loop:
 				err = errors.New(vUnhex(op[1]))
 			}
 			if op[0] == "reb" {
-				span.RecordError(err, bufs.attrOpts(vC04ParseSegs(op[2]))...)
+				o := bufs.attrOpts(vC04ParseSegs(op[2]))
+				span.RecordError(err, o...)
+				for _, x := range o[len(o):cap(o)] {
+					if x != nil {
+						spareOpts++
+					}
+				}
 			} else if kvs := vC04ParseKVs(op[2]); kvs == nil {
 				span.RecordError(err)
 			} else {
@@ -206,7 +216,7 @@ loop:
 	if ro, ok := span.(ReadOnlySpan); ok {
 		live = vC04Dump(ro)
 	}
-	spare := 0
+	spare := spareOpts
 	for _, ls := range spareLinks {
 		for _, l := range ls[len(ls):cap(ls)] {
 			if !reflect.DeepEqual(l, trace.Link{}) {
@@ -276,9 +286,10 @@ func vC04GenWrite(r *vRand, b int, caps []int, ctr *int) []string {
 }
 
 func vC04GenAliasScript(r *vRand) (caps []int, ops [][]string) {
+	nw := 3 // arrays the caller writes to after the leading block
 	caps = []int{vPick(r, []int{2, 4, 6, 8}), vPick(r, []int{0, 3, 5, 8}), vPick(r, []int{0, 2, 4, 6})}
 	ctr := 0
-	// leading block: fill the arrays (array 2 is written here only: links keep the caller's slice)
+	// leading block: fill the arrays
 	for b := range caps {
 		if caps[b] > 0 && r.Intn(8) > 0 {
 			ops = append(ops, []string{"wr", strconv.Itoa(b), "0", vC04GenFill(r, caps[b]-r.Intn(2), &ctr)})
@@ -287,7 +298,7 @@ func vC04GenAliasScript(r *vRand) (caps []int, ops [][]string) {
 	if r.Intn(3) == 0 {
 		for k := r.Intn(4); k > 0; k-- {
 			if r.Bool() {
-				ops = append(ops, []string{"LNB", vC04GenSC(r), vC04GenSeg(r, 2, caps)})
+				ops = append(ops, []string{"LNB", vC04GenSC(r), vC04GenSeg(r, r.Intn(len(caps)), caps)})
 			} else {
 				ops = append(ops, []string{"LN", vC04GenSC(r), vC04GenKVs(r, 3, 0)})
 			}
@@ -303,7 +314,7 @@ func vC04GenAliasScript(r *vRand) (caps []int, ops [][]string) {
 	for j := 0; j < k; j++ {
 		switch x := r.Intn(100); {
 		case x < 26:
-			ops = append(ops, vC04GenWrite(r, r.Intn(2), caps, &ctr))
+			ops = append(ops, vC04GenWrite(r, r.Intn(nw), caps, &ctr))
 		case x < 50:
 			ops = append(ops, []string{"evb", vHex("e" + strconv.Itoa(j)), vC04GenSegs(r, caps, 2)})
 		case x < 66:
@@ -315,7 +326,7 @@ func vC04GenAliasScript(r *vRand) (caps []int, ops [][]string) {
 		case x < 76:
 			ops = append(ops, []string{"sab", vC04GenSeg(r, r.Intn(len(caps)), caps)})
 		case x < 84:
-			ops = append(ops, []string{"lnb", vC04GenSC(r), vC04GenSeg(r, 2, caps)})
+			ops = append(ops, []string{"lnb", vC04GenSC(r), vC04GenSeg(r, r.Intn(len(caps)), caps)})
 		default:
 			ops = append(ops, vC04GenOp(r, 0))
 		}
@@ -325,6 +336,9 @@ func vC04GenAliasScript(r *vRand) (caps []int, ops [][]string) {
 		ops = append(vC04EnsureEnd(ops), vC04GenWrite(r, 0, caps, &ctr))
 		if caps[1] > 0 {
 			ops = append(ops, vC04GenWrite(r, 1, caps, &ctr))
+		}
+		if nw == 3 && caps[2] > 0 && r.Bool() {
+			ops = append(ops, vC04GenWrite(r, 2, caps, &ctr))
 		}
 	}
 	return caps, vC04EnsureEnd(ops)
